@@ -315,6 +315,6 @@ func TestVerifC18Repair(t *testing.T) {
 			return c
 		},
 		Check:        func(x *verifkit.Ctx, c pCase) error { return runC18(x, c) },
-		MinLabelFrac: map[string]float64{"tombstone": 0.4, "update missed by a replica": 0.4},
+		MinLabelFrac: map[string]float64{"tombstone": 0.25, "update missed by a replica": 0.2},
 	})
 }
